@@ -3,7 +3,7 @@ from plib import *
 from props.builder import Prog
 from props.common import ProgRunner
 
-LEAN_TARGETS = ["Plonk.Props.C10"]
+LEAN_TARGETS = ["Plonk.Props.C10", "Plonk.Props.WidgetTie"]
 ASSUMPTIONS = ["prover success coincides with 'every row identity holds' outside explicit bad-challenge sets (RO assumption)"]
 THEOREMS_NOTE = "Plonk/Props/C10.lean"
 
@@ -80,11 +80,39 @@ def run(ctx, broken):
                 src = "w %s;w %s;%s %d $0 $1" % (hx(va if k == 0 else vb), hx(vb if k == 0 else va), name, pairs)
                 specs.append((src, k, va, [name, "alias-x-plus-r"]))
     alias = full_alias_cases(ctx, specs)
-    r.run(cases(rng, ctx.tier) + alias + cancel_cases(rng, ("logic",), 1 if ctx.tier == "quick" else 8))
+    # NON-CANONICAL RE-DECOMPOSITION of one operand (layout-driven): with the other operand 0 every product wire and every
+    # output quad is 0, so lowering ONE accumulator of the chain by 1 turns quad t-1 into d-1 (still a quad) and quad t into
+    # d+4: only the range identity of that operand's quads rejects it. The accumulator witnesses are located in a dump of the
+    # real composer by their honest values (prefixes of an operand whose base-4 digits are all 1..3).
+    redec = []
+    rspecs = []
+    for pairs in ([2, 3, 8, 16, 31, 32, 64, 127] if ctx.tier == "quick" else range(2, 128)):
+        for name in ("and", "xor"):
+            for side in (0, 1):
+                v = 0
+                for _ in range(pairs):
+                    v = v * 4 + 1 + rng.below(3)
+                rspecs.append((pairs, name, side, v))
+    dumps = ctx.impl(["dump w %s;w %s;%s %d $0 $1" % (((hx(v), hx(0)) if side == 0 else (hx(0), hx(v))) + (name, pairs)) for (pairs, name, side, v) in rspecs])
+    for (pairs, name, side, v), dmp in zip(rspecs, dumps):
+        if " W " not in dmp:
+            continue
+        W = [int(t, 16) for t in dmp.split(" W ")[1].split(" P ")[0].split(",")]
+        t = 1 + rng.below(pairs - 1)                      # the quad that becomes d + 4; accumulator t-1 is lowered by one
+        target = v >> (2 * (pairs - t))                    # honest value of accumulator t-1 (prefix of t digits)
+        idxs = [i for i, x in enumerate(W) if x == target and i >= 8]
+        if len(idxs) != 1:
+            continue
+        p = Prog(); p.tags = [name, "re-decomposed-operand", "side-%d" % side]
+        a, b = (p.w(v), p.w(0)) if side == 0 else (p.w(0), p.w(v))
+        p.logic(name, pairs, a, b)
+        p.op("setw #%d %s" % (idxs[0], hx(target - 1))); p.unsat()
+        redec.append(p.case())
+    r.run(cases(rng, ctx.tier) + alias + redec + cancel_cases(rng, ("logic",), 1 if ctx.tier == "quick" else 8))
     st = r.report(broken)
     st["exhaustive_in_width"] = True
     st["rule"] = ("both operations x every pair count 0..=127 (layout exhaustive); inputs all-ones, r-1, pairs differing only "
-                  "above the width, 0/r-1, random; returned witness forged (expect unsat) or a product wire forged (model decides); COMPLETE x+r alias assignments of one input (quads, accumulators, high part, "
+                  "above the width, 0/r-1, random; returned witness forged (expect unsat) or a product wire forged (model decides); NON-CANONICAL RE-DECOMPOSITION of one operand while the other is 0 (one accumulator lowered by 1: a quad of d+4, located in the real layout); COMPLETE x+r alias assignments of one input (quads, accumulators, high part, "
                   "guard helper wires all consistent; only the canonical guard rejects) at limb-boundary pair counts (all in thorough). "
                   "Each case: layout/witness hashes impl vs model, returned value vs bitwise op on canonical values (Python oracle), "
                   "prove+verify vs model sysSat.")
